@@ -1,6 +1,32 @@
 """Property -> rule families.  Each entry is a list of callables taking the Run context."""
 import rf_alloc, rf_state, rf_tables, rf_sig, rf_union, rf_flow, rf_vocab, rf_mir2c, rf_code, rf_bounds, rf_fold, rf_proto, rf_dispatch, rf_keys, rf_abi, rf_x86, rf_inline, rf_templates
 import rf_iface, rf_callmode
+import re as _re, functools as _ft, traceback as _tb, os as _os
+from lib import facts as _F
+
+
+def _isolate(fn):
+    """a rule that cannot classify what it sees reports ANALYSIS-BROKEN for itself; the other rules of the property still run"""
+    @_ft.wraps(fn)
+    def w(run, *a, **k):
+        try:
+            return fn(run, *a, **k)
+        except _F.AnalysisBroken as ex:
+            run.analysis_broken(fn.__name__.upper().replace('RF', 'RF', 1), str(ex))
+        except Exception as ex:  # an internal error of one rule must not hide the verdicts of the others
+            tb = _tb.format_exc().strip().splitlines()
+            run.analysis_broken(fn.__name__, 'internal error %s: %s @ %s' % (type(ex).__name__, ex, tb[-3].strip() if len(tb) >= 3 else ''))
+            if _os.environ.get('VERIF_DEBUG'):
+                _tb.print_exc()
+    return w
+
+
+for _m in (rf_alloc, rf_state, rf_tables, rf_sig, rf_union, rf_flow, rf_vocab, rf_mir2c, rf_code, rf_bounds, rf_fold, rf_proto, rf_dispatch,
+           rf_keys, rf_abi, rf_x86, rf_inline, rf_templates, rf_iface, rf_callmode):
+    for _n in dir(_m):
+        if _re.fullmatch(r'rf\d+[a-z]?(_[a-z0-9]+)?', _n) and callable(getattr(_m, _n)):
+            setattr(_m, _n, _isolate(getattr(_m, _n)))
+
 from lib import facts as F
 
 
